@@ -323,6 +323,16 @@ Proof.
   split; [repeat constructor|]. vm_compute. repeat split; reflexivity.
 Qed.
 
+(* a third partition that holds NO half of any cut: its circuits are the subcircuit + suffix, one-bit QPD register *)
+Example c05_ex_no_cut :
+  exists dd coeffs,
+    generate 20 21 exEnv exCenv (CDict (exD ++ [(11, mkMC 1 0 [] [mkI (Gate 4) [0] []])]))
+             (ODict (exOD ++ [(11, Ok [mkOG [3] [0]])])) (NFin 10) exW = Ok (OutDict dd, coeffs) /\
+    map fst dd = [7; 9; 11] /\
+    snd (nth 2 dd (0, [])) =
+      repeat (mkMC 1 2 [(true, [0]); (false, [1])] [mkI (Gate 4) [0] []; mkI Measure [0] [0]]) 3.
+Proof. eexists; eexists. split; [vm_compute; reflexivity|]. vm_compute. split; reflexivity. Qed.
+
 (* the hypotheses of c05_exact_coeff are satisfiable: all four joint maps with their exact probabilities *)
 Definition exWinf : sdict :=
   [ ([0; 0], ((1 # 4)%Q, KExact)); ([0; 1], ((1 # 4)%Q, KExact)); ([1; 0], ((1 # 4)%Q, KExact)); ([1; 1], ((1 # 4)%Q, KExact)) ].
